@@ -21,6 +21,8 @@ type C12Scenario struct {
 	// step a sub-project (file subset) is analysed (`coca analysis -p`) and scanned (`coca api -p -f`),
 	// every command in its own process; reports left by earlier steps must not leak into later ones
 	CliHistory [][]int `json:"cli_history,omitempty"`
+	// CliTmpOtherFS: the CLI processes run with $TMPDIR on another file system
+	CliTmpOtherFS bool `json:"cli_tmp_other_fs,omitempty"`
 }
 
 type C12 struct{}
@@ -62,6 +64,7 @@ func (C12) Generate(t *tape.Tape, tier string) interface{} {
 			}
 			sc.CliHistory = append(sc.CliHistory, sub)
 		}
+		sc.CliTmpOtherFS = t.Bool(1, 3)
 	}
 	return sc
 }
@@ -313,11 +316,14 @@ func (C12) Run(ctx *sim.RunCtx, data json.RawMessage) (*sim.Outcome, error) {
 			out.Faults["durable-reports-carried-over"]++
 			ended := ""
 			for _, args := range [][]string{{"analysis", "-p", src}, {"api", "-p", src, "-f", "-c"}} {
-				res, err := ctx.Run(&sim.Proc{Schedule: sim.Canonical(), Cwd: cwd, Ops: []sim.Op{{Op: "cli", Args: map[string]interface{}{"args": args}}}})
+				res, err := ctx.Run(&sim.Proc{Schedule: sim.Canonical(), Cwd: cwd, TmpOtherFS: sc.CliTmpOtherFS, Ops: []sim.Op{{Op: "cli", Args: map[string]interface{}{"args": args}}}})
 				if err != nil {
 					return nil, err
 				}
 				out.Faults["restart"]++
+				if sc.CliTmpOtherFS {
+					out.Faults["tmpdir-on-other-fs"]++
+				}
 				if !res.Completed(0) || !res.Records[0].OK {
 					ended = args[0]
 					break
